@@ -7,7 +7,7 @@ import (
 )
 
 // Schema prints a parsed schema.Schema (what the library's own parser produced).
-// Unions are not part of the wire format; HasUnions reports their presence.
+// Unions follow the map's relationship as an optional u[…] group.
 func Schema(s *schema.Schema) string {
 	var b strings.Builder
 	b.WriteString("X")
@@ -58,6 +58,26 @@ func writeAtom(b *strings.Builder, a *schema.Atom) {
 		b.WriteString("]")
 		writeTypeRef(b, &a.Map.ElementType)
 		b.WriteString(Str(string(a.Map.ElementRelationship)))
+		if len(a.Map.Unions) > 0 {
+			// u[ ( (_|<S discriminator>) (T|F) [ (<S field><S value>)… ] )… ]
+			b.WriteString("u[")
+			for i := range a.Map.Unions {
+				u := &a.Map.Unions[i]
+				b.WriteString("(")
+				if u.Discriminator == nil {
+					b.WriteString("_")
+				} else {
+					b.WriteString(Str(*u.Discriminator))
+				}
+				b.WriteString(Flag(u.DeduceInvalidDiscriminator))
+				b.WriteString("[")
+				for _, f := range u.Fields {
+					b.WriteString("(" + Str(f.FieldName) + Str(f.DiscriminatorValue) + ")")
+				}
+				b.WriteString("])")
+			}
+			b.WriteString("]")
+		}
 	}
 }
 
